@@ -316,10 +316,9 @@ func (w *world) runScenario(sc *Scenario) int {
 		// the property's assumption about this head, relative to what is synced
 		if pre.Present && ghost != nil {
 			k := pre.Number
+			// the same rule whether the position's hash is known or (after a rollback whose resync has
+			// not completed) empty: forks at most the assumed depth below the recorded position
 			agreeUpto := k - D
-			if len(pre.Hash) == 0 {
-				agreeUpto = k
-			}
 			if agreeUpto < 0 {
 				agreeUpto = 0
 			}
@@ -780,6 +779,65 @@ func genScenario(r *vh.RNG, respectAssumption bool) *Scenario {
 			g.randomFault(&st, heavy)
 			sc.Steps = append(sc.Steps, st)
 			continue
+		case x < 68 && synced >= D+2: // a reorganisation whose resync fails, then a second fork below the rolled-back position
+			pos := synced - D // where resetSyncStatus / rollback puts the position
+			build := func(forkNum uint64, target int, reuse []syncrig.Ev) int {
+				salt++
+				nt := g.ancestorAt(tip, forkNum)
+				for int(g.number[nt]) < target {
+					nt = g.addBlock(nt, salt, reuse, density)
+				}
+				return nt
+			}
+			collect := func(forkNum uint64) []syncrig.Ev {
+				var reuse []syncrig.Ev
+				for id := tip; g.number[id] > forkNum; id = g.parent[id] {
+					reuse = append(reuse, g.eventsOf(id)...)
+				}
+				return reuse
+			}
+			f1 := uint64(synced - 1 - r.Intn(D-1)) // first fork: within the assumed depth
+			if f1 > g.number[tip] {
+				f1 = g.number[tip]
+			}
+			tip = build(f1, synced+1, collect(f1))
+			first := Step{Head: tip}
+			// the rollback commits, then the first RPC call / database operation of the resync fails
+			if r.Chance(1, 2) {
+				first.RPC = &syncrig.RPCFault{Call: 0, Kind: vh.Pick(r, "rpc-error", "http-500", "drop")}
+			} else if sc.Syncer == "multi" {
+				first.DB = &syncrig.DBFault{Op: 3 + r.Intn(2), Mode: vh.Pick(r, "stmt", "drop", "drop-commit")}
+			} else {
+				first.DB = &syncrig.DBFault{Op: 2 + r.Intn(2), Mode: vh.Pick(r, "stmt", "drop", "drop-commit")}
+			}
+			sc.Steps = append(sc.Steps, first)
+			// second fork: below the rolled-back position, within the assumed depth of it
+			lo := pos - D
+			if lo < 0 {
+				lo = 0
+			}
+			f2 := uint64(lo + r.Intn(pos-lo))
+			target := pos + 1
+			if !respectAssumption && r.Chance(1, 3) {
+				target = pos + 2 + r.Intn(3) // the first head of the fork is further ahead: outside the assumption
+			} else if r.Chance(1, 4) {
+				target = pos - r.Intn(2) // the head steps back first
+			}
+			if target <= int(f2) {
+				target = int(f2) + 1
+			}
+			tip = build(f2, target, collect(f2))
+			sc.Steps = append(sc.Steps, Step{Head: tip})
+			for int(g.number[tip]) < pos+1 {
+				tip = g.addBlock(tip, salt, nil, density)
+			}
+			for i := r.Intn(4); i > 0; i-- {
+				tip = g.addBlock(tip, salt, nil, density)
+			}
+			sc.Steps = append(sc.Steps, Step{Head: tip})
+			synced = int(g.number[tip])
+			s += 2
+			continue
 		default: // reorganisation
 			if synced < 1 {
 				tip = g.addBlock(tip, salt, nil, density)
@@ -921,6 +979,63 @@ func sweepScenarios(full bool) []*Scenario {
 	return out
 }
 
+// A rollback whose resync fails leaves the position with an empty hash; a second fork below that
+// position must still be handled (seed C15d).  Chain A 0..30, B forks after 24 (head B31 arrives
+// while the resync fails), C forks after 12 (heads C21 = position + 1, then C32).
+func emptyHashScenarios() []*Scenario {
+	var out []*Scenario
+	for _, s := range []string{"registry", "sequencer", "multi"} {
+		for variant := 0; variant < 4; variant++ {
+			sc := &Scenario{Kind: "sync", Syncer: s, Start: 0}
+			if s == "multi" {
+				sc.Depth, sc.Range = 10, 10_000
+				sc.Defs, sc.DefValid = stdDefs()
+			}
+			ev := func(p uint8, idx uint64) []syncrig.Item {
+				return []syncrig.Item{{Tx: 0, Ev: &syncrig.Ev{Eon: 1, P: p, S: 1, TS: 5, Def: 0, Exp: 300, Idx: idx, Gas: "21000"}}}
+			}
+			sc.Blocks = []syncrig.BlockSpec{
+				{Parent: 0, Count: 4}, {Parent: 4, Items: ev(1, 0)}, {Parent: 5, Count: 9}, // A1..A14 (A5 event)
+				{Parent: 14, Items: ev(2, 1)}, {Parent: 15, Count: 6}, {Parent: 21, Items: ev(3, 2)}, {Parent: 22, Count: 8}, // A15 event, A22 event, ..A30
+				{Parent: 24, Salt: 1, Count: 1}, {Parent: 31, Salt: 1, Items: ev(4, 3)}, {Parent: 32, Salt: 1, Count: 5}, // B25..B31 = ids 31..37 (B26 event)
+				{Parent: 12, Salt: 2, Count: 1}, {Parent: 38, Salt: 2, Items: ev(5, 1)}, {Parent: 39, Salt: 2, Count: 3}, // C13, C14 event, C15..C17 = ids 38..42
+				{Parent: 42, Salt: 2, Items: ev(6, 2)}, {Parent: 43, Salt: 2, Count: 14}, // C18 event (id 43), C19..C32 = ids 44..57
+			}
+			failed := Step{Head: 37}
+			switch variant {
+			case 0:
+				failed.RPC = &syncrig.RPCFault{Call: 0, Kind: "rpc-error"}
+				sc.Note = "failed resync (RPC) after a rollback, second fork below the rolled-back position, first head position+1"
+			case 1:
+				op := 2
+				if s == "multi" {
+					op = 3
+				}
+				failed.DB = &syncrig.DBFault{Op: op, Mode: "stmt"}
+				sc.Note = "failed resync (status read) after a rollback, second fork below the rolled-back position"
+			case 2:
+				op := 3
+				if s == "multi" {
+					op = 4
+				}
+				failed.DB = &syncrig.DBFault{Op: op, Mode: "drop-commit"}
+				sc.Note = "failed resync (range transaction) after a rollback, second fork below the rolled-back position"
+			case 3:
+				failed.RPC = &syncrig.RPCFault{Call: 1, Kind: "drop"}
+				sc.Note = "failed resync after a rollback, the second fork's first head is position+3 (outside the assumption: correspondence only)"
+			}
+			c21, c23, c32 := 46, 48, 57
+			if variant == 3 {
+				sc.Steps = []Step{{Head: 30}, failed, {Head: c23}, {Head: c32}}
+			} else {
+				sc.Steps = []Step{{Head: 30}, failed, {Head: c21}, {Head: c32}}
+			}
+			out = append(out, sc)
+		}
+	}
+	return out
+}
+
 func forcedScenarios() []*Scenario {
 	var out []*Scenario
 	for _, s := range []string{"registry", "sequencer", "multi"} {
@@ -1020,6 +1135,9 @@ func main() {
 		exec(rangesCase(s, e, r))
 	}
 	for _, sc := range forcedScenarios() {
+		exec(sc)
+	}
+	for _, sc := range emptyHashScenarios() {
 		exec(sc)
 	}
 	for _, sc := range sweepScenarios(run.Thorough) {
